@@ -18,6 +18,10 @@ mod ty;
 pub fn unify(all_constraints: &[Constraints], ctx: &Context) -> Unified {
     let mut count = 1;
     let mut finished = Finished::default();
+    #[cfg(mamba_verif)]
+    crate::verif_hooks::count("constraints", all_constraints.iter().map(|c| c.len() as u64).sum());
+    #[cfg(mamba_verif)]
+    crate::verif_hooks::count("constraint_sets", all_constraints.len() as u64);
     let (_, errs): (Vec<_>, Vec<_>) = all_constraints
         .iter()
         .map(|constraints| {
